@@ -229,3 +229,19 @@ Example seeded_run_22 : run_gen_seeded 22 [[0; 1; 2]; [1000; 1001; 1002; 1003; 1
   = Some (Ok [(0, 0); (1, 1000); (1, 1001); (1, 1002); (0, 1); (1, 1003); (1, 1004); (0, 2); (2, 2000)]).
 Proof. vm_compute. reflexivity. Qed.
 
+
+(** non-vacuity of [check_run_rng]: a script with every kind of call the theorem covers meets its premises
+    ([call_okb] reflects [call_ok], RNG_Check.call_okb_ok; no fuel value among the results) and passes *)
+Definition rng_witness : val :=
+  L [I 3; L [I 0; I 22];
+     L [L [I 0]; L [I 1]; L [I 2]; L [I 3; L [I 0; I 10]]; L [I 3; L [I 1; I 0]]; L [I 4; I 10];
+        L [I 5; L [L [I 0; I 3]; L [I 0; I 0]; L [I 0; I 5]]];
+        L [I 6; L [L [I 0; I 4503599627370496; I (-52)]; L [I 0; I 6755399441055744; I (-51)]]];
+        L [I 7; L [I 0; I 5]; I 3]; L [I 8; L [I 0; I 1000]; I 3; I 1]; L [I 3; L [I 0; I 0]]];
+     L []]%Z.
+Example rng_witness_ok :
+  is_rng_case rng_witness && forallb RNG_Check.call_okb (v_script rng_witness)
+  && negb (existsb (val_eqb RNG_Model.v_fuel)
+             (fst (RNG_Model.run_calls (v_script rng_witness) (RNG_Model.seed_from_u64 (RNG_Model.v_hl (v_nth 1 rng_witness))))))
+  && check_C07s rng_witness (run_C07s rng_witness) = true.
+Proof. vm_compute. reflexivity. Qed.
